@@ -4,7 +4,7 @@
    of coq/C04/Spec.v.  Proofs are in coq/C04/Proofs*.v; nothing here but statements.
    Every theorem is for ALL configurations (any number and kind of processors), all start options and
    ALL sequences of operations (incl. operations after End and further Ends). *)
-From V Require Import C04.Glue C04.ProofsMap C04.ProofsStep C04.ProofsMeets C04.ProofsHeap C04.ProofsProps C04.ProofsWire C04.ProofsPar.
+From V Require Import C04.Glue C04.ProofsMap C04.ProofsStep C04.ProofsMeets C04.ProofsHeap C04.ProofsProps C04.ProofsWire C04.ProofsPar C04.ProofsRace.
 Local Open Scope Z_scope.
 
 (* --- sentence 1: what each configured processor's exporter receives.  The whole final state of a case:
@@ -154,7 +154,7 @@ Print Assumptions model_meets_spec.
 
 (* the extracted entry point prints exactly that observation *)
 Theorem run_model_is_the_span_machine : forall (l : list tok) (c : case), parse_case l = Some c ->
-  run_model l = print_obs (w_q (run1 (map_cfg conv (cs_cfg c)) (map_start conv (cs_start c)) (conv_case_ops (cs_ops c))))
+  run_model_seq l = print_obs (w_q (run1 (map_cfg conv (cs_cfg c)) (map_start conv (cs_start c)) (conv_case_ops (cs_ops c))))
                           (w_got (run1 (map_cfg conv (cs_cfg c)) (map_start conv (cs_start c)) (conv_case_ops (cs_ops c)))).
 Proof. exact run_model_never_faults. Qed.
 Print Assumptions run_model_is_the_span_machine.
@@ -165,9 +165,18 @@ Theorem observation_print_parse : forall (q : list bool) (got : list (list sdata
 Proof. exact parse_print_obs. Qed.
 Print Assumptions observation_print_parse.
 
-Theorem model_meets_spec_wire : forall (l : list tok) (c : case), parse_case l = Some c -> run_spec l (run_model l) = [].
+Theorem model_meets_spec_wire : forall (l : list tok) (c : case), parse_case l = Some c -> run_spec_seq l (run_model_seq l) = [].
 Proof. exact model_meets_spec_wire_lemma. Qed.
 Print Assumptions model_meets_spec_wire.
+
+(* [run_model] / [run_spec] dispatch on the kind of case (SRACE cases go to the race acceptor and coq/C04/SpecRace.v, whose
+   verdicts are on explored schedules only - no theorem); for the cases above, with or without the "|| <trace>" the runner
+   appends, they are the functions of the previous theorem *)
+Theorem model_meets_spec_entry : forall (l tr : list tok) (c : case),
+  parse_case l = Some c -> is_srace l = false -> plain "||" l ->
+  run_spec (l ++ tag "||" :: tr) (run_model (l ++ tag "||" :: tr)) = [] /\ run_spec l (run_model l) = [].
+Proof. exact model_meets_spec_entry_lemma. Qed.
+Print Assumptions model_meets_spec_entry.
 
 (* --- "from several threads on one span".  Every mutator runs under Span::mu_, so a concurrent execution is
    an interleaving of the threads' operation lists.  For the threaded cases of ./check (thread i writes only
